@@ -16,6 +16,7 @@ use crate::ops::OpSpec;
 use crate::ops::Profile;
 use crate::props::c02::limited_cache;
 use crate::props::c02::reopen_checked;
+use crate::pinwin::Window;
 use crate::props::with_run;
 use crate::runner::CaseInfo;
 use crate::runner::Ctx;
@@ -82,6 +83,11 @@ pub fn held_snapshot_step(run: &mut Run, held: &mut Option<Held>, sel: u64) -> R
     Ok(())
 }
 
+pub fn check_reads_w(run: &mut Run, sel: u64, win: &mut Window) -> Result<(), Fail> {
+    win.track(run);
+    check_reads(run, sel)
+}
+
 pub fn check_reads(run: &mut Run, sel: u64) -> Result<(), Fail> {
     let lagging = !run.worker_idle();
     let m0 = miss_count(run);
@@ -106,12 +112,16 @@ pub fn check_reads(run: &mut Run, sel: u64) -> Result<(), Fail> {
     Ok(())
 }
 
-fn readers(run: &mut Run, k: u8, steps: u8, sel: u64) -> Result<(), Fail> {
+fn readers(run: &mut Run, k: u8, steps: u8, sel: u64, win: &mut Window, win_open: &mut bool) -> Result<(), Fail> {
+    if win.known_window(run).is_some() {
+        *win_open = true;
+    }
     let snap: Snapshot = run.model.cur.clone();
     let n = snap.log.len() as u64;
     let first = snap.log.keys().next().copied().unwrap_or(0);
     let worker = run.worker();
     let stepped = run.stepped;
+    let run: &Run = run;
     let rl = run.rl();
     let mut errs: Vec<Fail> = vec![];
     std::thread::scope(|s| {
@@ -144,6 +154,9 @@ fn readers(run: &mut Run, k: u8, steps: u8, sel: u64) -> Result<(), Fail> {
                 if st == Stable::Timeout {
                     crate::driver::inconclusive("worker stuck during concurrent reads");
                 }
+                if win.known_window(run).is_some() {
+                    *win_open = true;
+                }
                 if st != Stable::Parked {
                     break;
                 }
@@ -157,7 +170,6 @@ fn readers(run: &mut Run, k: u8, steps: u8, sel: u64) -> Result<(), Fail> {
             }
         }
     });
-    run.classes.hit("concurrent_readers");
     match errs.into_iter().next() {
         Some(f) => Err(f),
         None => Ok(()),
@@ -222,11 +234,16 @@ impl Prop for C07 {
     }
     fn run_case(&self, case: &Case, ctx: &Ctx) -> Result<CaseInfo, Fail> {
         let mut info = CaseInfo::default();
-        let limited = limited_cache(case);
-        let avoid = limited && ctx.known.is_known(KNOWN_REAPPEND);
+        let _ = limited_cache(case);
+        let tolerate = ctx.known.is_known(KNOWN_REAPPEND);
         let res = with_run(&case.cfg, true, &[], |run| {
-            run.avoid_low_reappend = avoid;
+            // Re-appends at or below an earlier id are part of the search: the known finding is
+            // recognised by its exact input class (pinwin::Window), not avoided wholesale.
+            run.avoid_low_reappend = false;
             let mut held: Option<Held> = None;
+            let mut win = Window::default();
+            let mut win_in_readers = false;
+            win.track(run);
             let r = (|| -> Result<(), Fail> {
                 for op in &case.ops {
                     if run.inst.is_some() {
@@ -235,11 +252,17 @@ impl Prop for C07 {
                     match op {
                         OpSpec::Reject { .. } | OpSpec::Probe(_) | OpSpec::DropReopen { .. } => continue,
                         OpSpec::Reopen { cfg } => {
-                            reopen_checked(run, cfg)?;
-                            check_reads(run, case.sel)?;
+                            let r = reopen_checked(run, cfg);
+                            win.track(run);
+                            r?;
+                            check_reads_w(run, case.sel, &mut win)?;
                         }
                         OpSpec::Readers { k, steps, sel } => {
-                            readers(run, *k, *steps, mix(case.sel, *sel as u64))?;
+                            win_in_readers = false;
+                            let r = readers(run, *k, *steps, mix(case.sel, *sel as u64), &mut win, &mut win_in_readers);
+                            run.classes.hit("concurrent_readers");
+                            r?;
+                            win_in_readers = false;
                         }
                         OpSpec::Steps(k) => {
                             let n = if *k == 255 { 400 } else { *k as u32 };
@@ -248,7 +271,7 @@ impl Prop for C07 {
                                 if done > 0 {
                                     run.classes.hit("worker_steps");
                                 }
-                                check_reads(run, case.sel)?;
+                                check_reads_w(run, case.sel, &mut win)?;
                                 if st != Stable::Parked {
                                     break;
                                 }
@@ -257,41 +280,60 @@ impl Prop for C07 {
                         _ => {
                             let d = run.exec(op)?;
                             if std::env::var_os("RLV_DEBUG").is_some() {
-                                eprintln!("op {:?} -> {:?}\n   stat {}\n   resident {:?}\n   model {:?}", op, d, run.rl().stat(), run.rl().verif_cache_resident(), run.model.cur.st);
+                                eprintln!("op {:?} -> {:?}\n   stat {}\n   resident {:?}\n   model {:?}\n   window {:?}", op, d, run.rl().stat(), run.rl().verif_cache_resident(), run.model.cur.st, win.known_window(run));
                             }
                             if matches!(d, Done::Skipped) {
                                 continue;
                             }
-                            check_reads(run, case.sel)?;
+                            check_reads_w(run, case.sel, &mut win)?;
                         }
                     }
                 }
                 run.run_to_idle();
-                check_reads(run, case.sel)?;
+                check_reads_w(run, case.sel, &mut win)?;
                 // drain_cache_evictable() evicts everything at or below the boundary even from an
-                // unlimited cache, so it also reaches the known re-append class: skip it there
-                // unless this is the strict probe of that class.
-                if !(run.classes.has("reappend_at_or_below_earlier_id") && ctx.known.is_known(KNOWN_REAPPEND)) {
+                // unlimited cache: while the known window is open it would reach the known class
+                if win.known_window(run).is_none() {
                     run.rl().drain_cache_evictable();
                     run.classes.hit("drained");
-                    check_reads(run, case.sel)?;
+                    check_reads_w(run, case.sel, &mut win)?;
                 } else {
+                    run.classes.hit("drain_skipped_known_window");
                     run.excluded += 1;
                 }
                 Ok(())
             })();
             match r {
-                Ok(()) => Ok((run.classes.clone(), run.excluded)),
+                Ok(()) => Ok((run.classes.clone(), run.excluded, None)),
                 Err(mut f) => {
-                    if run.classes.has("reappend_at_or_below_earlier_id") && (f.key == "read-error" || f.key == "read-mismatch") {
-                        f.key = KNOWN_REAPPEND.to_string();
+                    // The known finding shows as a read *error* (never a wrong payload) and only
+                    // while its window is open at the moment of the failure.
+                    if f.key == "read-error" && run.inst.is_some() {
+                        let w = win.known_window(run);
+                        if w.is_some() || win_in_readers {
+                            let why = w.unwrap_or_else(|| "window open while the concurrent readers ran".to_string());
+                            if tolerate {
+                                run.classes.hit("ended_in_known_window");
+                                return Ok((run.classes.clone(), run.excluded + 1, Some(format!("{} [{}]", f.msg, why))));
+                            }
+                            f.key = KNOWN_REAPPEND.to_string();
+                            f.msg = format!("{} [{}]", f.msg, why);
+                            return Err(f);
+                        }
+                        f.msg = format!("{} [not the known re-append class: every live entry at or below the eviction boundary of the unchanged design is safely on disk]", f.msg);
                     }
                     Err(f)
                 }
             }
         });
-        let ((classes, excluded), ctl) = res?;
-        let npread = check_preads(&ctl.trace)?;
+        let ((classes, excluded, known_hit), ctl) = res?;
+        // a case that ended with the tolerated read failure has, as its last pread, exactly the
+        // read beyond the written bytes that is the known finding ("failed to fill whole buffer")
+        let ended_known = known_hit.is_some();
+        if let Some(m) = known_hit {
+            info.known_hits.push((KNOWN_REAPPEND.to_string(), m));
+        }
+        let npread = if ended_known { 0 } else { check_preads(&ctl.trace)? };
         info.evals += case.ops.len() as u64 + classes.n("worker_steps");
         for (k, v) in &classes.m {
             if !k.starts_with("__") {
